@@ -293,7 +293,7 @@ Theorem c20_live_budget_exceeded_refuted :
     early_faults (List.length (data (base srv))) 0 rds = true /\
     session_r code_shape srv retry_schedule rds [] bufs = Ok (Some (sr, outs)) /\
     Exists (fun o => snd o = EFail) outs.
-Proof. exact budget_exceeded_fails. Qed.
+Proof. exact (budget_exceeded_fails code_shape (proj1 c20_text_as_modelled)). Qed.
 Print Assumptions c20_live_budget_exceeded_refuted.
 
 Example c20_live_budget_satisfiable :
@@ -361,3 +361,34 @@ Theorem c20_readall_complete_or_error : forall dat outs b,
   Faithful dat outs -> read_all outs [] = Some (Some b) -> b = dat.
 Proof. exact read_all_faithful. Qed.
 Print Assumptions c20_readall_complete_or_error.
+
+(* the hypotheses of the session-6 theorems are satisfiable: a session with two
+   resumptions at different offsets (the scenario of seeded change C20-4) whose
+   requests carry [], [2], [3]; a 503 page with bytes of its own answered to a
+   resumption: the Read fails, the next one resumes (206) and the page's bytes are nowhere; a framed download into an empty cache directory *)
+Example c20_range_header_two_resumptions :
+  exists sr outs,
+    session_r code_shape
+      {| base := {| data := [1; 2; 3; 4; 5]%N; kind := HonoursRange; bare := false |}; ebody := [66; 67]%N |}
+      retry_schedule
+      [ {| rk := 2; rfail := false; reager := false |}; {| rk := 0; rfail := true; reager := false |};
+        {| rk := 1; rfail := false; reager := false |}; {| rk := 0; rfail := true; reager := false |} ]
+      [] [2; 2; 2; 2] = Ok (Some (sr, outs)) /\
+    rsent sr = [(0, []); (2, [2]); (3, [3])] /\ delivered outs = [1; 2; 3; 4; 5]%N.
+Proof. eexists _, _. split; [vm_compute; reflexivity|]. split; reflexivity. Qed.
+
+Example c20_error_body_met_and_not_delivered :
+  exists sr outs,
+    session_r code_shape
+      {| base := {| data := [1; 2; 3; 4; 5]%N; kind := HonoursRange; bare := false |}; ebody := [66; 67]%N |}
+      retry_schedule
+      [ {| rk := 2; rfail := false; reager := false |}; {| rk := 0; rfail := true; reager := false |} ]
+      [CServe; CStatus] [2; 2; 2] = Ok (Some (sr, outs)) /\
+    outs = [([1; 2]%N, ENone); ([], EFail); ([3; 4]%N, ENone)] /\ dead (rbdy sr) = false.
+Proof. eexists _, _. split; [vm_compute; reflexivity|]. split; reflexivity. Qed.
+
+Example c20_cached_hypotheses_satisfiable :
+  framed_ev CServe = true /\ adv {| adv := None; tmps := [] |} = None /\
+  exists d' rds', cached_fetch code_cshape [1; 2; 3]%N CServe [ {| rk := 2; rfail := true; reager := false |} ]
+                    {| adv := None; tmps := [] |} = Ok (d', None, rds') /\ adv d' = None /\ tmps d' = [].
+Proof. split; [reflexivity|]. split; [reflexivity|]. eexists _, _. split; [vm_compute; reflexivity|]. split; reflexivity. Qed.
